@@ -9,12 +9,13 @@ open PCV PCV.MV PCV.C15Spec
 variable {F : Type} [Field F] [DecidableEq F]
 
 /-- **PST13 `check` decides exactly `defect = 0`** (arbitrary verifier key; whenever it does not
-abort). -/
+refuse: one witness per key variable, key and point long enough). -/
 theorem pst13_check_iff_defect (vk : PST.VK F) (cs z vs : List F) (π : PST.Proof F) (ξs : List F)
     (a : F × F × List F) (hacc : PST.accumulate 0 0 cs vs ξs = .ok a)
+    (hnv : π.w.length = vk.numVars)
     (hlen : π.w.length ≤ vk.betaH.length ∧ π.w.length ≤ z.length) :
     PST.check vk cs z vs π ξs = .ok true ↔ PST.defect vk cs z vs π ξs = 0 :=
-  C15.check_iff_defect vk cs z vs π ξs a hacc hlen
+  C15.check_iff_defect vk cs z vs π ξs a hacc hnv hlen
 
 /-- **PST13: the verifier's decision on an arbitrary changed claim** against the honest proof:
 `check [c + dc] z [p(z) + dv] π` decides `(dc − g·dv)·ξ·h = 0`. -/
